@@ -590,7 +590,10 @@ func vpC19Run(cfg *vpC19Cfg, fail func(format string, a ...any)) []vpC19Outcome 
 				out.tx++
 			case "ret":
 				out.faults++
-				if e.step.kind == vpC19Oversize {
+				if e.step.kind == vpC19Oversize && !e.past {
+					// (when the request's deadline had passed before the oversized response was delivered the
+					// client may have seen a timeout instead of ErrBodyTooLarge: then the rules for timeouts
+					// apply and a callback may ask for another attempt)
 					stopped = "the previous response exceeded MaxResponseBodySize"
 				}
 				if call.stream != 0 {
